@@ -28,14 +28,14 @@ import units  # noqa: E402
 LEVEL = 'proof'
 META = {
     'text': 'Coq theorems (Props/C08.v): (1) FULL crash-freedom of the Gallina crash models regenerated on every run from the '
-            'ClientHello checks of _serverGetClientHello and the ServerHello checks of _clientGetServerHello (every partial '
+            'ClientHello checks of _serverGetClientHello, the ServerHello checks and the HelloRetryRequest handling of _clientGetServerHello (the latter under a hypothesis on the own hello), partial for the second ClientHello after HRR (one known site) (every partial '
             'Python operation an explicit Crash outcome; for EVERY abstract parsed message, settings, oracle); (2) hand model '
             'of the error funnel (_getMsg/_sendError/_shutdown/read/write/close/handshake wrapper incl. its protocol-error '
             'alert clauses): any raising call leaves closed=true, resumable=false, mapped classes write the fatal alert '
             'first, only documented classes for specified exceptions, exact residue of classes that still escape without '
             'alert; (3) parser loops strictly consume input, work and allocation linear in the input, decompression bounded '
             'under the decompressor contract (measured to hold for zlib on the real call). Each model is compared with the '
-            'running implementation (vm_compute); the direct oracle mutates the peer traffic of 27 handshake flavours in '
+            'running implementation (vm_compute); the direct oracle mutates the peer traffic of 28 handshake flavours (incl. the second message of HRR/resumption/PSK exchanges) in '
             'both roles against live endpoints.',
     'note': 'Partial: crash-freedom is proved only for the two translated hello regions; the rest of the handshake '
             'coroutines is covered by the live mutation search only (5 known findings remain on HEAD). Trusted: Coq kernel + '
@@ -87,6 +87,7 @@ def fuzz_stage(ctx, quick, pool):
     cases = c08_fuzz.gen_cases(ctx.rng, n)
     cases += c08_fuzz.bomb_cases(ctx.rng, [8] if quick else [8, 64, 200])
     cases += c08_fuzz.ecpoint_cases(ctx.rng)
+    second = c08_fuzz.second_step_cases(ctx.rng, profiles, quick)
     for i, c in enumerate(cases):
         c08_fuzz.resolve_target(c, profiles)
         c.setdefault('mem', i % 6 == 0)
@@ -105,7 +106,8 @@ def fuzz_stage(ctx, quick, pool):
                     corpus.append(c)
     except OSError:
         pass
-    cases = corpus + cases
+    cases = corpus + second + cases
+    ctx.cov['second_step_cases'] = len(second)
     t0 = time.time()
     results = pool.map(c08_fuzz.worker, cases, chunksize=4)
     ctx.log('fuzz: %d cases in %.1fs' % (len(cases), time.time() - t0))
@@ -275,13 +277,15 @@ def decompress_contract(ctx, quick):
 def run(ctx):
     quick = ctx.tier == 'quick'
     tie_broken = None
-    for name in ('ChChecks', 'ChChecksProof', 'ShChecks', 'ShChecksProof'):
+    for name in ('ChChecks', 'ChChecksProof', 'ShChecks', 'ShChecksProof', 'HrrChChecks', 'HrrChChecksProof',
+                 'HrrShChecks', 'HrrShChecksProof'):
         ok, msg = units.generate(name, vlib.COQ)
         ctx.log('translator %s: %s' % (name, msg))
         if not ok:
             tie_broken = tie_broken or msg
     res = vlib.proof_stage(ctx, 'Props/C08.v',
-                           model_targets=['Base/C08_Lib.vo', 'Gen/ChChecks.vo', 'Gen/ShChecks.vo', 'Model/C08_Funnel.vo',
+                           model_targets=['Base/C08_Lib.vo', 'Gen/ChChecks.vo', 'Gen/ShChecks.vo', 'Gen/HrrChChecks.vo',
+                                          'Gen/HrrShChecks.vo', 'Model/C08_Funnel.vo',
                                           'Model/C08_Work.vo'])
     ctx.log('proof stage ok=%s failing=%s' % (res['ok'], res['failing']))
     ctx.cov['trusted_base'] = [
@@ -329,6 +333,27 @@ def run(ctx):
             ctx.violation(key, 'handshakeClientCert: %s for a syntactically valid ServerHello (%s)' % (text, label),
                           {'server_hello_handshake_message_hex': hexbytes, 'sh_case_seed': vers,
                            'how': 'start handshakeClientCert, answer its ClientHello with this ServerHello handshake message'})
+        # ---- two-step exchanges: second ClientHello after HelloRetryRequest (server), HelloRetryRequest (client)
+        for title, fn, vo, who in (('second ClientHello after HRR', c08_hello.run_stage_hrr, 'HrrChChecks.vo', 'handshakeServer'),
+                                   ('HelloRetryRequest handling', c08_hello.run_stage_hrrsh, 'HrrShChecks.vo',
+                                    'handshakeClientCert')):
+            t0 = time.time()
+            ok_ = model_ok and os.path.exists(os.path.join(vlib.COQ, 'Gen', vo))
+            tie, crashes = fn(ctx, quick, ok_, pool)
+            ctx.log('%s correspondence: %.1fs tie=%s live crashes=%d' % (title, time.time() - t0, tie, len(crashes)))
+            tie_broken = tie_broken or tie
+            for label, code, cls, hexbytes, extra, key, text in crashes:
+                found = True
+                if key in seen:
+                    continue
+                seen.add(key)
+                rep = {'second_message_hex': hexbytes, 'how': './check C08 --replay <this file>'}
+                if who == 'handshakeServer':
+                    rep.update({'first_client_hello_hex': extra, 'second_client_hello_hex': hexbytes,
+                                'server_settings': "eccCurves=['secp256r1'], keyShares=['secp256r1']"})
+                else:
+                    rep['hrrsh_case_seed'] = extra
+                ctx.violation(key, '%s: %s (%s, %s)' % (who, text, title, label), rep)
     wtie, wfound = witness_stage(ctx)
     found |= wfound
     tie_broken = tie_broken or wtie
@@ -389,6 +414,23 @@ def replay(ctx, path):
         exc = c08_hello.run_server_exc(ch, st)
         print('handshakeServer outcome:', repr(exc))
         return 1 if exc is not None and loop.classify(('exc', exc))[0] == 'Other' else 0
+    if 'second_client_hello_hex' in r:
+        from tlslite.messages import RecordHeader3
+        pair = loop.Pair()
+        cert, key = loop.creds('rsa')
+        gen = pair.server.handshakeServerAsync(certChain=cert, privateKey=key,
+                                               settings=loop.settings(eccCurves=['secp256r1'], keyShares=['secp256r1']))
+        for hx in (r['first_client_hello_hex'], r['second_client_hello_hex']):
+            m = bytes.fromhex(hx)
+            pair.ssock.inbuf += RecordHeader3().create((3, 3), 22, len(m)).write() + m
+            res = loop.run_gen(gen, max_steps=3000)
+        cls = loop.classify(res)
+        print('handshakeServer outcome after the second ClientHello:', cls, repr(res[1])[:200])
+        return 1 if cls[0] == 'Other' else 0
+    if 'hrrsh_case_seed' in r:
+        o = c08_hello.hrrsh_case(r['hrrsh_case_seed'])
+        print('handshakeClientCert outcome:', o.get('cls'), o.get('crash'))
+        return 1 if o.get('crash') else 0
     if 'sh_case_seed' in r:
         o = c08_hello.sh_case(r['sh_case_seed'])
         print('handshakeClientCert outcome:', o.get('cls'), o.get('crash'))
